@@ -88,7 +88,15 @@ def eval_case(c):
             kw["alpha"] = c["alpha"]
         m = getattr(C, base)(**kw).fit(dx, dy, "time")
         if name.endswith("Rotator"):
-            m = getattr(C, name)(n_modes=c["k"], power=c["power"], max_iter=5000, rtol=1e-10).fit(m)
+            rot = getattr(C, name)(n_modes=c["k"], power=c["power"], max_iter=5000, rtol=1e-10)
+            for j in range(c.get("refit", 0)):
+                # the same rotator object was fitted before (on other models): history must not matter
+                r2 = np.random.default_rng(c["seed"] + 91 + j)
+                L2 = r2.standard_normal((nn, 4))
+                X2 = L2 @ r2.standard_normal((4, pp)) + 0.3 * r2.standard_normal((nn, pp))
+                Y2 = L2 @ r2.standard_normal((4, pp + 1)) + 0.3 * r2.standard_normal((nn, pp + 1))
+                rot.fit(getattr(C, base)(**kw).fit(real.da2(X2 + 0j if cplx else X2, "time", "x"), real.da2(Y2 + 0j if cplx else Y2, "time", "y"), "time"))
+            m = rot.fit(m)
         for normalized in (False, True):
             tx, ty = m.transform(dx, dy, normalized=normalized)
             sx, sy = m.scores(normalized=normalized)
@@ -158,18 +166,20 @@ def bounded_cases(tier, seed):
                 for use_pca in (False, True):
                     cases.append(dict(family="cross", model=model, n=40, p=5, k=2, alpha=alpha, use_pca=use_pca, power=power,
                                       cplx=model.startswith("Complex")))
+    for i in range(4):
+        cases.append(dict(family="cross", model="MCARotator", n=40, p=5, k=3, alpha=None, use_pca=False, power=1 + i % 2, cplx=False, refit=2, keep=True))
     for pca in (False, True):
-        cases.append(dict(family="multi", model="multi.CCA", n=40, p=5, pca=pca))
+        cases.append(dict(family="multi", model="multi.CCA", n=40, p=5, pca=pca, keep=True))
     for i, c in enumerate(cases):
         c["seed"] = int(seed) * 1000 + i
     if tier == "quick":
-        cases = real.subsample(cases, 70, rng)
+        cases = [c for c in cases if c.get("keep")] + real.subsample([c for c in cases if not c.get("keep")], 64, rng)
     return cases
 
 
 def run_bounded(res, tier, seed):
     for c in bounded_cases(tier, seed):
-        sig = {k: c.get(k) for k in ("family", "model", "power", "alpha", "use_pca", "layout", "nan_sample", "pca")}
+        sig = {k: c.get(k) for k in ("family", "model", "power", "alpha", "use_pca", "layout", "nan_sample", "pca", "refit")}
         if c.get("alpha") is not None:
             sig["alpha_lt_1"] = c["alpha"] < 1
         try:
